@@ -3,7 +3,7 @@ CONSTANTS
   Depth = 2
   MaxLinks = 0
   MaxData = 1
-  MaxOdd = 0
+  MaxOdd = 1
 SPECIFICATION Spec
 VIEW View
 INVARIANTS WellFormedTree CheckingLaws ActingLaws
